@@ -4,6 +4,22 @@ import json, os
 V = os.path.dirname(os.path.dirname(os.path.abspath(__file__)))
 
 CLAIMS = {
+ "C08": dict(
+   text="Theorems, generic in the number system, over the model of the derive-generated update: update only ever sets indices of animated fields (any time, any phase), a timeline with no keyframes modifies nothing, an animated field without any keyframe value is never written (its sub-timeline is empty), merged timelines likewise, and by induction over arbitrary advance/set_state histories a state animator never touches a field no timeline animates. Correspondence: sentinel values in every non-animated slot and in non-#[animate] fields of three derived shapes (all-fields, #[animate] subset, remote proxy), across all phases and extreme times; expect-oracles on the implementation output.",
+   note="Trusted: Lean kernel; hand-written model tied by bit-exact differential runs (sampled). The struct-shape rule of derive(Animate) itself is C17.",
+   technique="Lean 4 theorems (structural induction over subs / histories, no arithmetic) + sentinel correspondence", design="§7 C08"),
+ "C09": dict(
+   text="In the model update is a pure function of (timeline, target, time); proved laws: idempotence, independence of the prior contents of written slots (via a target-independent write-list normal form), latest start_with fully replaces earlier ones, start_with keeps delay/cycle/duration/repeat. That the implementation has no hidden per-call state is decided by the correspondence: interleaved update/start_with/clone sessions at non-monotone times from arbitrary prior targets must equal the model's function bit for bit, plus relational eq-oracles on the implementation alone.",
+   note="History-independence of the implementation is validated differentially, not proved (stated as such). Trusted: Lean kernel, sampled tie.",
+   technique="Lean 4 theorems (write-list normal form) + differential validation of history independence", design="§7 C09"),
+ "C11": dict(
+   text="Theorem: for keyframes at pairwise distinct positions, any permutation of the insertion order yields the identical built timeline (stable insertion sort is sorted + a permutation, and a strictly sorted permutation is unique), hence identical results at all times and identical metadata; boundary times are sorted. Holds for the repaired code (fix 0c5d3a1); the pre-fix witness is kept in corpus/ and runs first. Correspondence: every generated timeline is also built from a shuffled insertion order and compared (model vs code bit-exact; permuted vs original on the implementation).",
+   note="Trusted: Lean kernel; sampled tie; positions non-negative and not NaN so total_cmp agrees with <.",
+   technique="Lean 4 theorem (Perm + Pairwise uniqueness) + bit-exact correspondence with permuted twins", design="§7 C11"),
+ "C12": dict(
+   text="Theorems: merged update = ordered fold of component updates; write-list concatenation normal form; later components win on shared slots; start_with reaches every component; singleton transparent; empty merge is a no-op; delay = minimum, total duration = maximum (infinite iff any), repeat = maximum with Infinite above every count (no restriction thanks to fix 442e70b), cycle duration reported iff all agree. Correspondence: 0–4 real derive-built components with overlapping or disjoint masks and heterogeneous timing; sequential-application, reorder (disjoint) and aggregate-metadata oracles on the implementation.",
+   note="Order-independence for disjoint property sets is checked by oracle on the implementation and model-vs-code; the Lean theorem for arbitrary permutations is not yet proved (later_wins and the fold characterisation are). Trusted: Lean kernel, sampled tie.",
+   technique="Lean 4 theorems (fold/min/max characterisations over ℚ, write lists) + bit-exact correspondence + relational oracles", design="§7 C12"),
  "C13": dict(
    text="Theorems over the Lean model of easing.rs (control points regenerated from the source on every run): every built-in easing maps 0→0 and 1→1 exactly (ℚ, for any control points; and bit-exactly in binary32 by decide +kernel over all 29), every non-Back curve stays in [0,1] and is monotone on [0,1] (Bernstein factorisation, table ordering by decide), Linear is the identity, each In/Out pair is the point mirror and each InOut its own mirror (table + functional identity), custom easings used as given, generated table = published CSS/easings.net control points. The timing-function clause is refuted by a kernel-checked witness for all 28 curves (known finding F-C13). Correspondence: all 29+4 custom easings bit-exact on random and dense sweeps; spec oracles against the published parametric value and the exact timing function.",
    note="Trusted: Lean kernel; hand transcription of published control points and of lyon's y(t); differential tie sampled. F-C13 is recorded, not repaired (pinned tests fix the parametric numbers).",
